@@ -43,11 +43,27 @@ func VerifC09Balancers() {
 	verifReach("end")
 }
 
+// a meter as users write them: plain fields, no synchronisation of its own — the
+// rebalancer's mutex is what makes Record / IsReady / Rating safe (as for the default meter)
+type vfPlainMeter struct {
+	n      int
+	failed int
+}
+
+func (m *vfPlainMeter) Rating() float64 { return float64(m.failed) }
+func (m *vfPlainMeter) Record(code int, d time.Duration) {
+	m.n++
+	if code >= 500 {
+		m.failed++
+	}
+}
+func (m *vfPlainMeter) IsReady() bool { return m.n >= 0 }
+
 func VerifC09Rebalancer() {
 	clock.Freeze(time.Unix(1700000000, 0))
 	us := vfURLs()
 	rr, _ := New(vfNop{})
-	rb, err := NewRebalancer(rr, RebalancerMeter(func() (Meter, error) { return &vfMeter{ready: true, rating: 0.1}, nil }))
+	rb, err := NewRebalancer(rr, RebalancerMeter(func() (Meter, error) { return &vfPlainMeter{}, nil }))
 	verifAssert("rebalancer-ok", err == nil)
 	_ = rb.UpsertServer(us[0], Weight(2))
 	_ = rb.UpsertServer(us[2], Weight(1))
